@@ -285,7 +285,7 @@ def run_stage(prop, tier, seed, stage, nshards_default):
             res["wall_s"] = time.time() - t0
             return res
     nshards = stage.get("shards", nshards_default)
-    out_dir = os.path.join(WORK, "logs", prop, name)
+    out_dir = os.path.join(WORK, "logs" + repo_tag(), prop, name)
     timeout_s = stage.get("timeout_s", 1800 if tier == "quick" else 4 * 3600)
     env_extra = dict(stage.get("env", {}))
     results = run_shards(variant, prop, tier, seed, nshards, out_dir, stage.get("args", []), timeout_s, env_extra, wrapper=stage.get("wrapper"))
@@ -303,7 +303,7 @@ def run_stage(prop, tier, seed, stage, nshards_default):
                 res["inconclusive"].append(f"{name}: shard {r['shard']} ended (rc={r['rc']}, timeout={r['timed_out']}) outside any case: {err_tail[-400:]}")
                 break
             sub, idx = case
-            solo_dir = os.path.join(WORK, "logs", prop, name + f"-solo-{r['shard']}-{restarts}")
+            solo_dir = os.path.join(WORK, "logs" + repo_tag(), prop, name + f"-solo-{r['shard']}-{restarts}")
             solo_timeout = timeout_s if not r["timed_out"] else timeout_s * 4
             suspected_hang = r["timed_out"] or r["rc"] == 124
             if suspected_hang and any(v["sig"] == "hang" for v in res["violations"]):
@@ -339,7 +339,7 @@ def run_stage(prop, tier, seed, stage, nshards_default):
             if restarts > 40:
                 res["inconclusive"].append(f"{name}: shard {r['shard']} restarted {restarts} times; giving up on its remaining cases")
                 break
-            cur_dir = os.path.join(WORK, "logs", prop, name + f"-resume-{r['shard']}-{restarts}")
+            cur_dir = os.path.join(WORK, "logs" + repo_tag(), prop, name + f"-resume-{r['shard']}-{restarts}")
             r = run_shards(variant, prop, tier, seed, nshards, cur_dir, stage.get("args", []) + ["--resume-after", sub, str(idx)], timeout_s, env_extra, shard_ids=[r["shard"]], wrapper=stage.get("wrapper"))[0]
             if r["json"] is not None:
                 results.append(r)
@@ -436,7 +436,7 @@ def do_replay(path):
             break
     args = (stage or {}).get("args", [])
     env_extra = (stage or {}).get("env", {})
-    out_dir = os.path.join(WORK, "logs", prop, "replay")
+    out_dir = os.path.join(WORK, "logs" + repo_tag(), prop, "replay")
     r = run_shards(variant, prop, body.get("tier", "quick"), body["seed"], 1, out_dir, args + ["--replay", body["sub"], str(body["idx"]), "-v"], 4 * 3600, env_extra, shard_ids=[0])[0]
     print(open(os.path.join(out_dir, "shard-0.stdout")).read()[-6000:])
     print(tail(os.path.join(out_dir, "shard-0.stderr"), 80))
